@@ -262,7 +262,7 @@ def b_len(ex, e, st):
         ok = z3.Or(is_s(v.t), is_y(v.t), isl, isd)
         ex.raise_if(st, z3.Not(ok), 'TypeError', 'safe/type-len', e)
         n = z3.If(is_s(v.t), z3.Length(sv(v.t)), z3.If(is_y(v.t), z3.Length(yv(v.t)),
-                  z3.If(isl, z3.Length(z3.Select(ex.harr(st, '$seq'), rv(v.t))),
+                  z3.If(isl, z3.Length(ex.seq_of(st, v.t)),
                         z3.Length(z3.Select(ex.harr(st, '$dkeys'), rv(v.t))))))
         return Val(mk_i(n), 'int')
     raise OutOfSubset('len of %s' % v.ty)
@@ -496,7 +496,12 @@ def m_list(ex, recv, name, e, st):
             ex.raise_if(st, n == 0, 'IndexError', 'safe/pop', e)
             j = n - 1
         t = q[j]
-        ex.set_seq(st, recv, z3.Concat(z3.Extract(q, 0, j), z3.Extract(q, j + 1, n - j - 1)))
+        if not args:
+            # valid lemma (n >= 1 on this path): the list is its prefix plus the popped element
+            st.assume(q == z3.Concat(z3.Extract(q, 0, n - 1), z3.Unit(t)))
+            ex.set_seq(st, recv, z3.Extract(q, 0, n - 1))
+        else:
+            ex.set_seq(st, recv, z3.Concat(z3.Extract(q, 0, j), z3.Extract(q, j + 1, n - j - 1)))
         ex.assume_allocated(st, t)
         return Val(t, None)
     if name == 'insert':
